@@ -25,7 +25,7 @@ MANIFEST = dict(
     technique="Lean 4 proof (per-position invariant of the vote loop) + differential CLI histories",
 )
 ASSUMPTIONS = [
-    "diploid, biallelic SNVs, error-free reads, default thresholds (--gap-threshold 70, --cut-poly 10, no --only-indels)",
+    "diploid SNVs, biallelic and (half of the cases) multi-allelic with two ALT alleles (allele ids 0..2; haplotag and phase skip such records, haplotagphase reads them unless --no-mav), error-free reads, default thresholds (--gap-threshold 70, --cut-poly 10, no --only-indels)",
     "variants covered by a tagged read that overlaps two phase sets of V are excluded from the order/phase-set oracle, as the property does",
     "input phase given as GT + PS (what `whatshap phase` writes by default)",
 ]
@@ -65,17 +65,39 @@ def usable17(rec):
     return not (f & 2048) and rec["mapq"] >= 20 and not (f & 256) and not (f & 4) and not (f & 1024)
 
 
+def is_multi(v):
+    return bool(v.get("alts"))
+
+
 def detected_reads(fa, bam, case, sample, chrom, U):
     from whatshap.cli import PhasedInputReader
     from whatshap.core import NumericSampleIds, Genotype
-    from whatshap.vcf import BiallelicVcfVariant
+    from whatshap.vcf import BiallelicVcfVariant, MultiallelicVcfVariant
     vs, gts = [], []
     for v in case["variants"][chrom]:
-        vs.append(BiallelicVcfVariant(v["pos"], v["ref"], v["alt"]))
+        if case["history"].get("no_mav") and is_multi(v):
+            continue
+        if v.get("alts"):
+            vs.append(MultiallelicVcfVariant(v["pos"], v["ref"], list(v["alts"])))
+        else:
+            vs.append(BiallelicVcfVariant(v["pos"], v["ref"], v["alt"]))
         gts.append(Genotype(sorted(U[(sample, chrom, v["pos"])][1])))
     with PhasedInputReader([bam], fa, NumericSampleIds(), False, only_snvs=False) as pir:
         rs, _ = pir.read(chrom, vs, sample, restricted_genotypes=gts)
-        return [[r.PS_tag, r.HP_tag, [[v.position, v.allele, v.quality] for v in r]] for r in rs]
+        # the real vote loop on these reads, with the tables run_haplotagphase builds from Genotype.as_vector()
+        from collections import defaultdict
+        from whatshap.cli.haplotagphase import compute_votes
+        allele_to_id, homozygous = defaultdict(dict), {}
+        for v, g in zip(vs, gts):
+            for i, a in enumerate(g.as_vector()):
+                allele_to_id[v.position][a] = i
+            homozygous[v.position] = g.is_homozygous()
+        try:
+            votes = [[int(p), [[int(ps), int(k), int(q)] for (ps, k), q in inner.items()]]
+                     for p, inner in compute_votes(homozygous, rs, allele_to_id).items()]
+        except KeyError:
+            votes = "KeyError"
+        return [[r.PS_tag, r.HP_tag, [[v.position, v.allele, v.quality] for v in r]] for r in rs], votes
 
 
 def run_case(ctx, case, d):
@@ -133,7 +155,9 @@ def run_case(ctx, case, d):
     U = parse_vcf(Up, samples)
     # ---- haplotagphase
     outp = os.path.join(d, "out.vcf")
-    rc, _, se, _ = W(["haplotagphase", "-o", outp, "--reference", fa, Up, tagged])
+    no_mav = bool(hist.get("no_mav"))
+    ctx.dist("no_mav", no_mav)
+    rc, _, se, _ = W(["haplotagphase", "-o", outp, "--reference", fa, Up, tagged] + (["--no-mav"] if no_mav else []))
     if rc != 0:
         return bad("haplotagphase", se)
     O = parse_vcf(outp, samples)
@@ -145,7 +169,7 @@ def run_case(ctx, case, d):
     assert len(srt) == len(trecs) and all(a["name"] == b["name"] for a, b in zip(srt, trecs)), "harness: input order"
     rg_of = {s: {rid for rid, sm in case["read_groups"] if sm == s} for s in samples}
 
-    n_new, n_sets, excluded = 0, set(), 0
+    n_new, n_sets, excluded, n_multi = 0, set(), 0, 0
     for s in samples:
         for c in case["contigs"]:
             vs = case["variants"][c]
@@ -155,16 +179,33 @@ def run_case(ctx, case, d):
             for rec, a in zip(trecs, srt):
                 if rec["chrom"] != c or rec["rg"] not in rg_of[s] or not usable17(rec):
                     continue
-                t = templ.setdefault(rec["name"], {"cov": set(), "hp": rec["hp"], "ps": rec["ps"]})
+                t = templ.setdefault(rec["name"], {"cov": set(), "hp": rec["hp"], "ps": rec["ps"], "start": rec["start"],
+                                                   "bx": next((val for tg, val in a.get("tags", []) if tg == "BX"), None)})
                 t["cov"].update(i for i, _ in a["truth"])
+                t["start"] = min(t["start"], rec["start"])
             for t in templ.values():
-                sets = {V[(s, c, pos_of[i])][2] for i in t["cov"] if V[(s, c, pos_of[i])][0]}
+                t["sets"] = {V[(s, c, pos_of[i])][2] for i in t["cov"] if V[(s, c, pos_of[i])][0]}
+            for t in templ.values():
+                sets = set(t["sets"])
+                if case.get("bx_cutoff") and t["bx"] is not None:
+                    # linked reads: haplotag tags a whole read cloud (same BX, starts within the cutoff of the cloud's
+                    # first read) with ONE haplotype and phase set; for the proviso "no read overlaps two different
+                    # phase sets" the cloud is the read.  Two members are at most 2 * cutoff apart.
+                    for t2 in templ.values():
+                        if t2["bx"] == t["bx"] and abs(t2["start"] - t["start"]) <= 2 * case["bx_cutoff"]:
+                            sets |= t2["sets"]
                 t["two_sets"] = len(sets) > 1
             for i, v in enumerate(vs):
                 key = (s, c, v["pos"])
                 u, o, vv = U[key], O.get(key), V[key]
                 if o is None:
                     ctx.fail(f"call {key} missing from the haplotagphase output", case, key="record-lost"); continue
+                if no_mav and is_multi(v):
+                    # --no-mav: the record is neither read nor written; it keeps what it carries (also its phase, F25)
+                    if o != u:
+                        ctx.fail(f"{c}:{v['pos'] + 1} {s}: multi-allelic record under --no-mav changed {fmt(u)} -> {fmt(o)}", case,
+                                 key="no-mav-multi-changed")
+                    continue
                 if u[0]:
                     if o != u:
                         ctx.fail(f"{c}:{v['pos'] + 1} {s}: already phased in the input of haplotagphase as {fmt(u)}, written as {fmt(o)}",
@@ -192,6 +233,9 @@ def run_case(ctx, case, d):
                         ctx.fail(f"{c}:{v['pos'] + 1} {s}: haplotype order {fmt(o)}, the VCF that tagged the reads says {fmt(vv)}", case, key="order")
                     else:
                         n_new += 1; n_sets.add((s, c, o[2]))
+                        if v.get("alts"):
+                            n_multi += 1
+                            ctx.dist("multiallelic_genotype_reproduced", "|".join(map(str, o[1])))
                 else:
                     ctx.observe("variant unphased in V gets phased from the tagged reads (outside the statement)")
 
@@ -220,20 +264,26 @@ def run_case(ctx, case, d):
 
             # ---- correspondence with the Lean model
             vars_req = []
-            for v in vs:
+            mvs = [v for v in vs if not (no_mav and is_multi(v))]     # the variants haplotagphase reads
+            skip_idx = {i for i, v in enumerate(vs) if no_mav and is_multi(v)}
+            for v in mvs:
                 u = U[(s, c, v["pos"])]
-                vars_req.append([v["pos"], sorted(u[1]), ([u[2] if u[2] is not None else 0, list(u[1])] if u[0] else None),
-                                 len(v["ref"]) == 1 and len(v["alt"]) == 1])
-            impl = [[v["pos"], ([O[(s, c, v["pos"])][2], *O[(s, c, v["pos"])][1]] if O[(s, c, v["pos"])][0] else None)] for v in vs]
-            det = detected_reads(fa, tagged, case, s, c, U)
+                # genotype vector in the order of Genotype.as_vector(): descending (allele_to_id / id_to_allele are built
+                # by enumerating it)
+                vars_req.append([v["pos"], sorted(u[1], reverse=True),
+                                 ([u[2] if u[2] is not None else 0, list(u[1])] if u[0] else None),
+                                 len(v["ref"]) == 1 and all(len(a) == 1 for a in (v.get("alts") or [v["alt"]]))])
+            impl = [[v["pos"], ([O[(s, c, v["pos"])][2], *O[(s, c, v["pos"])][1]] if O[(s, c, v["pos"])][0] else None)] for v in mvs]
+            det, real_votes = detected_reads(fa, tagged, case, s, c, U)
             # ground truth reads: alleles from the generator, tags from the tagged BAM, assembled by the model of create_read_from_group
             order, groups, tags = [], {}, {}
             for rec, a in zip(trecs, srt):
-                if rec["chrom"] != c or rec["rg"] not in rg_of[s] or not usable17(rec) or not a["truth"]:
+                truth = [[i, al] for i, al in a["truth"] if i not in skip_idx]
+                if rec["chrom"] != c or rec["rg"] not in rg_of[s] or not usable17(rec) or not truth:
                     continue
                 if rec["name"] not in groups:
                     groups[rec["name"]] = []; order.append(rec["name"])
-                groups[rec["name"]].append([False, bool(rec["reverse"]), rec["start"], rec["end"], [[pos_of[i], al, 30] for i, al in a["truth"]]])
+                groups[rec["name"]].append([False, bool(rec["reverse"]), rec["start"], rec["end"], [[pos_of[i], al, 30] for i, al in truth]])
                 tags[rec["name"]] = (rec["ps"], rec["hp"])
             reqs, labels = [], []
             base = dict(op="c17.run", onlyIndels=False, gap=70, cut=10, ref=case["contigs"][c], vars=vars_req)
@@ -245,6 +295,11 @@ def run_case(ctx, case, d):
                 for rep in (True, False):
                     reqs.append(dict(base, repaired=rep, reads=treads)); labels.append(("truth" if grp_rep else "truth-orig-grouping", rep))
             answers = dict(zip(labels, ctx.model.ask_many(reqs)))
+            # the vote table itself (per-position invariant of the vote loop, also for allele ids >= 2)
+            mv = answers[("detected", True)].get("votes") if "error" not in answers[("detected", True)] else "KeyError"
+            if mv != real_votes:
+                ctx.disagree("c17.run/votes", {"case": case, "chrom": c, "sample": s}, real_votes, mv)
+            ctx.dist("vote_tables_compared", 1)
             for mode in ("detected", "truth"):
                 a_rep, a_orig = answers[(mode, True)], answers[(mode, False)]
                 if mode == "truth" and a_rep.get("out") != impl and answers[("truth-orig-grouping", True)].get("out") == impl:
@@ -265,6 +320,7 @@ def run_case(ctx, case, d):
                     ctx.fail(f"{c} {s}: output phase does not follow from the alleles and tags of the reads (ground truth): "
                              f"haplotagphase {diff[0][0] if diff else impl[:2]}, model {diff[0][1] if diff else a_rep}", case, key="truth-alleles")
     ctx.validated()
+    ctx.dist("multiallelic_newly_phased", min(n_multi, 8))
     ctx.dist("newly_phased", min(n_new // 3 * 3, 30)); ctx.dist("phase_sets", min(len(n_sets), 6)); ctx.dist("excluded_two_sets", min(excluded, 5))
     if n_new >= 3:
         ctx.nontrivial(json.dumps(case, sort_keys=True)[:20000])
